@@ -511,7 +511,8 @@ fn push_case<const U: usize, const R: usize>(t_lo: u64, t_hi: u64, q: usize, hdr
         // read order = block zero, then blocks 1.. in file order: once any block beyond block zero exists
         // (durable: T >= 2, or pending), a newly appended record must not be placed in block zero
         assert!(ok, "push_accepts_record_that_fits");
-        assert!(!(hdr_changed && (t >= 2 || q > 0)), "appended_record_is_last_in_read_order");
+        // (a current block that already holds records is such a block too, although it has no id yet)
+        assert!(!(hdr_changed && (t >= 2 || q > 0 || cur_used.is_some())), "appended_record_is_last_in_read_order");
         std::mem::forget(wal);
         return;
     }
@@ -662,6 +663,11 @@ fn c17_push_max_record_fits() {
 // read order: block zero is read before blocks 1..; a record appended after such blocks exist must not land in block zero
 // @obl harness=c17_push_order_cur id=C17.push_order[current_present] native=c17_append_after_force_order tier=quick funcs="WriteAheadLog::push" bounds="block 4096; T in 1..=1000; 1 queued block; current block at 160; block zero still has room; 96-byte record" stubs="std::fmt::format" assume="INV; total_entries < u32::MAX"
 hpush!(c17_push_order_cur, 3, 6, 1, 1000, 1, 0, Some(160), true, Target::Current, CHECK_ORDER);
+// the same with NOTHING queued: the current block is the one opened by the first spill (it carries no block id yet, so
+// `total_blocks` and the flush queue do not show that the log has left block zero) - a record that would still fit into
+// block zero must nevertheless follow the records already in the current block
+// @obl harness=c17_push_order_cur_q0 id=C17.push_order[current_present;nothing_queued] also=C01 native=c17_append_after_force_order tier=quick funcs="WriteAheadLog::push" bounds="block 4096; T in 1..=1000; no queued block; current block at 160; block zero still has room; 96-byte record" stubs="std::fmt::format" assume="INV; total_entries < u32::MAX"
+hpush!(c17_push_order_cur_q0, 3, 6, 1, 1000, 0, 0, Some(160), true, Target::Current, CHECK_ORDER);
 // @obl harness=c17_push_order_full id=C17.push_order[block0_full] native=c17_append_after_force_order tier=quick funcs="WriteAheadLog::push" bounds="block 4096; T in 1..=1000; nothing pending; block zero without room for the 96-byte record" stubs="std::fmt::format" assume="INV; total_entries < u32::MAX"
 hpush!(c17_push_order_full, 3, 6, 1, 1000, 0, BZ_CAP - 88, None, true, Target::FirstSpill, CHECK_ORDER);
 // KNOWN-FINDING REGION: after a force (current_block = None) with durable blocks beyond block zero (T >= 2) and room left in block zero
